@@ -217,12 +217,14 @@ func (w *wal) flush(batch WALBatch) error {
 		tupleLen := len(tupleBuf.Bytes())
 		binary.LittleEndian.PutUint32(tupleLenBuf, uint32(tupleLen))
 
+		vWalWrite(0, len(tupleLenBuf))
 		if n, err := w.reader.Write(tupleLenBuf); err != nil {
 			return err
 		} else if n != len(tupleLenBuf) {
 			panic("bytes written differs from expected buffer length")
 		}
 
+		vWalWrite(1, tupleLen)
 		if n, err := w.reader.Write(tupleBuf.Bytes()); err != nil {
 			return err
 		} else if n != tupleLen {
@@ -230,12 +232,14 @@ func (w *wal) flush(batch WALBatch) error {
 		}
 
 		if w.forceSync {
+			vWalSync()
 			if err := w.reader.Sync(); err != nil {
 				return err
 			}
 		}
 	}
 
+	vWalDone()
 	return nil
 }
 
